@@ -87,6 +87,7 @@ fn main() {
     "C09" => vprop::c09::run(&cfg),
     "C10" => vprop::c10::run(&cfg),
     "C12" => vprop::c12::run(&cfg),
+    "C13" => vprop::c13::run(&cfg),
     "C14" => vprop::c14::run(&cfg),
     "C15" => vprop::c15::run(&cfg),
     "C16" => vprop::c16::run(&cfg),
